@@ -658,9 +658,10 @@ func constStr(p *eng.Program, pkgRel, name string) (string, bool) {
 }
 
 // classifyMapping decides which mapper list applies to a mapping expression inside fn:
-//   X.commitSelect.DocumentMapping / X.DocumentMapping on the commit select  -> "commit"
-//   v where v := M.ChildMappings[i] and i ranges over / indexes M.IndexesByName[LinksFieldName] -> "links"
-//   same with SignatureFieldName -> "signature"
+//
+//	X.commitSelect.DocumentMapping / X.DocumentMapping on the commit select  -> "commit"
+//	v where v := M.ChildMappings[i] and i ranges over / indexes M.IndexesByName[LinksFieldName] -> "links"
+//	same with SignatureFieldName -> "signature"
 func classifyMapping(info *types.Info, fd *ast.FuncDecl, e ast.Expr, linksName, sigName string) string {
 	e = ast.Unparen(e)
 	if se, ok := e.(*ast.SelectorExpr); ok && se.Sel.Name == "DocumentMapping" {
@@ -1087,8 +1088,8 @@ func ruleLimitTable(c *eng.Ctx) {
 	})
 	// expected canonical forms
 	stop := "-1*limit-1*offset+1*rowIndex+0>=0" // rowIndex >= limit+offset
-	unbounded := "+1*limit+0!=0"                 // limit != 0 (also matches limit == 0 negated: checked separately)
-	skip := "-1*offset+1*rowIndex-1>=0"          // rowIndex > offset
+	unbounded := "+1*limit+0!=0"                // limit != 0 (also matches limit == 0 negated: checked separately)
+	skip := "-1*offset+1*rowIndex-1>=0"         // rowIndex > offset
 	_, hasStop := conds[stop]
 	_, hasUnb := conds[unbounded]
 	_, hasUnbEq := conds["+1*limit+0==0"]
